@@ -7,6 +7,7 @@
  * The blocks are TYPED (malloc(n * sizeof(double))): see the tool note below. */
 double *doubleCalloc(size_t n)
 {
+    if (n > NCAP * NRHSCAP) vf_abort("doubleCalloc");   /* beyond the capacity of this unit: taken to fail (never on the proved domain) */
     double *p = (double *)malloc(n * sizeof(double));
     if (!p) vf_abort("doubleCalloc");
     __CPROVER_assume(__CPROVER_forall { int qz; (0 <= qz && qz < NCAP * NRHSCAP) ==> ((size_t)qz < n ==> p[qz] == 0.0) });
@@ -16,6 +17,7 @@ double *doubleCalloc(size_t n)
 
 double *doubleMalloc(size_t n)
 {
+    if (n > NCAP) vf_abort("doubleMalloc");
     double *p = (double *)malloc(n * sizeof(double));
     if (!p) vf_abort("doubleMalloc");
     g_live++;
